@@ -1,15 +1,22 @@
 """C07 - cleanup keeps exactly the newest files, compresses losslessly, spares the current file."""
 import gen_flw as g
 
-CLAIM = ("Decided per explored history by executable oracles defined in Coq (Oracles/O_Stream.v) and applied to directory snapshots of "
-         "the implementation after every flush and stop: the family files read in reader order (archives decompressed) form a tail of "
-         "the logged stream, the numbers of rotated plain files and of archives respect the configured limits, every archive is a "
-         "complete gzip stream whose content is exactly the bytes of the file it replaced (it is a segment of the logged stream), and "
-         "the file being written is plain. Proved in Coq: soundness of these oracle predicates (C07_tail_sound, C07_limits_sound). "
-         "The model (incl. synchronous and queued background cleanup, compression steps) is tied to the code by the correspondence "
-         "check. A proof that the model's cleanup keeps exactly the newest files for every history is not finished: partial.")
-THEOREMS = ["C07_tail_sound", "C07_limits_sound"]
-TRUSTED = ["modelled, not verified: flate2 (validated by decompressing every archive), read_dir + byte-wise sort of the listing, "
+CLAIM = ("Proved in Coq for the model: (1) the listing the cleanup works on is a sorted permutation of the family's files under a total "
+         "order (C07_listing_sorted) in which - for every suffix and every number of digits of the restart counter - a file written "
+         "later under the same time stamp comes before the earlier ones, compressed or not (C07_listing_restart_order, "
+         "C07_listing_plain_last; hypothesis: the suffix does not end in .gz); (2) without faults the cleanup keeps the first "
+         "log_limit entries of that listing unchanged, turns the next compress_limit into archives with exactly the content of the "
+         "files they replace, removes everything beyond, removes redundant archives first and touches nothing else "
+         "(C07_cleanup_keeps_newest, C07_compress_lossless). Not proved: that every history of the writer hands the cleanup a listing "
+         "whose order is the order of writing for all namings (that is (1) for restart siblings, numbers by C01) - so the end-to-end "
+         "statement is decided per explored history by executable oracles defined in Coq (Oracles/O_Stream.v) on directory snapshots of "
+         "the implementation after every flush and stop: the family files in reader order (archives decompressed) form a tail of the "
+         "logged stream, the numbers of plain files and archives respect the limits, every archive is complete and is a segment of the "
+         "logged stream, the file being written is plain (C07_tail_sound, C07_limits_sound: soundness of these oracles). The model "
+         "(synchronous and queued background cleanup, compression step by step) is tied to the code by the correspondence check: partial.")
+THEOREMS = ["C07_listing_sorted", "C07_listing_restart_order", "C07_listing_plain_last", "C07_compress_lossless", "C07_cleanup_keeps_newest",
+            "C07_tail_sound", "C07_limits_sound"]
+TRUSTED = ["modelled, not verified: flate2 (validated by decompressing every archive), read_dir, the keyed sort of the listing (modelled as insertion sort by the same key), "
            "the background cleanup thread is modelled as a queue drained at shutdown (interleavings with rotations: not explored here)"]
 ASSUMPTIONS = ["no I/O faults, no kill, no foreign files; the same cleanup strategy in all runs of a history"]
 RULE = ("1-3 runs per case under the virtual clock with a cleanup strategy KeepLogFiles(0-3) / KeepCompressedFiles(0-2) / "
